@@ -26,7 +26,7 @@ def nat_fast_choice(ps, u):
 def nat_dist(code, direction, p, defo=None, kwargs=None):
     from panqec.error_models import PauliErrorModel
     em = PauliErrorModel(*direction, deformation_name=defo, deformation_kwargs=kwargs or None)
-    em.probability_distribution.cache_clear()
+    getattr(em.probability_distribution, 'cache_clear', lambda: None)()          # (only if the tables are memoised by functools)
     return nat_dist_of(em, code, direction, p, defo, kwargs)
 
 
@@ -140,11 +140,20 @@ def nat_generate(em, code, p, us):
         why = 'stub generator not usable'
     if why is None:
         return None
+    # the sampler does not use today's coupling: the distribution tests are much more expensive, so only a bounded number of them is run per process
+    # (the callers visit deformed / biased models early)
+    global _SLOW_BUDGET
+    if _SLOW_BUDGET <= 0:
+        return None
+    _SLOW_BUDGET -= 1
     try:
-        why2 = _measure_check(em, code, p)
+        why2 = _measure_check(em, code, p, m=600)
     except (AttributeError, TypeError, IndexError):
-        return _statistical_check(em, code, p)
+        return _statistical_check(em, code, p, nsamp=12000)
     return why2
+
+
+_SLOW_BUDGET = 80
 def nat_weights(em, code, p, eps=1e-20):
     pi, px, py, pz = em.probability_distribution(code, p)
     wx, wz = em.get_weights(code, p, eps=eps)
